@@ -2,6 +2,7 @@ package main
 
 import (
 	"fmt"
+	"strconv"
 	"strings"
 
 	"verifharness/hx"
@@ -415,6 +416,87 @@ func generate(cfg *hx.Config) []hx.Case {
 		cases = append(cases, caseOf(fmt.Sprintf("early%d", k), mode, exs))
 		cfg.Count("origin=answers-before-reading-upload")
 	}
+	// HTTP/1.0 clients, with and without keep-alive, against every origin framing
+	k10 := 0
+	for _, keep := range []bool{true, false} {
+		for _, fr := range []string{"c", "k5", "x", "204", "304", "HEAD"} {
+			for _, mode := range []string{"seq", "pipe"} {
+				r := rng.Fork()
+				e := genExchange(r, genOpt{}, false)
+				for e.Method == "HEAD" {
+					e = genExchange(r, genOpt{}, false)
+				}
+				e.V10, e.SV10, e.Gz = true, false, false
+				e.Rd = -1 // (an early answer must not meet a close signal, see genExchange)
+				if e.BLen > 20000 {
+					e.BLen = 20000
+				}
+				e.Hdrs, e.SHdrs = stripConn(e.Hdrs), stripConn(e.SHdrs)
+				if keep {
+					e.Hdrs = insertAt(r, e.Hdrs, p1x.Hdr{Name: "Connection", Value: pick(r, "keep-alive", "Keep-Alive")})
+				}
+				if strings.HasPrefix(e.RqF, "k") {
+					e.RqF = "c"
+				}
+				if e.SBLen == 0 || e.SBLen > 8192 {
+					e.SBLen = r.Range(1, 8192)
+				}
+				if e.Status == 204 || e.Status == 304 {
+					e.Status = 200
+				}
+				switch fr {
+				case "204", "304":
+					e.RsF, e.SBLen = "n", 0
+					e.Status, _ = strconv.Atoi(fr)
+				case "HEAD":
+					e.Method, e.RsF, e.SBLen, e.BLen, e.RqF = "HEAD", "n", 0, 0, "n"
+				default:
+					e.RsF = fr
+				}
+				next := genExchange(r, genOpt{}, false)
+				next.BLen, next.RqF = 0, "n"
+				if next.Method == "POST" || next.Method == "PUT" || next.Method == "PATCH" {
+					next.RqF = "c"
+				}
+				if next.SBLen > 8192 {
+					next.SBLen = 8192
+				}
+				cases = append(cases, caseOf(fmt.Sprintf("h10-%d", k10), mode, []*exch{e, next}))
+				k10++
+				cfg.Count("http/1.0-client-x-framing")
+			}
+		}
+	}
+	// several client connections through one proxy (one transport, one pool of
+	// origin connections), slow origin, total time beyond the proxy's timeout
+	nm := 4
+	if cfg.Thorough() {
+		nm = 20
+	}
+	for k := 0; k < nm; k++ {
+		r := rng.Fork()
+		in := []string{"H1", "multi.1500.300"}
+		for c := 0; c < 3; c++ {
+			if c > 0 {
+				in = append(in, "N")
+			}
+			for i := r.Range(2, 3); i > 0; i-- {
+				e := genExchange(r, genOpt{}, false)
+				e.V10, e.SV10 = false, false
+				e.Hdrs, e.SHdrs = stripConn(e.Hdrs), stripConn(e.SHdrs)
+				e.Rd = -1
+				if e.BLen > 20000 {
+					e.BLen = 20000
+				}
+				if e.SBLen > 20000 {
+					e.SBLen = 20000
+				}
+				in = append(in, e.token())
+			}
+		}
+		cases = append(cases, hx.Case{Name: fmt.Sprintf("multi%d", k), In: in})
+		cfg.Count("mode=multi")
+	}
 	// connection lifetime: the connection lives longer than the proxy's
 	// timeout although every pause is far below it
 	nl := 6
@@ -586,6 +668,19 @@ func corpus() []hx.Case {
 		up.Rd = k
 		add(fmt.Sprintf("origin-answers-before-reading-upload-%d", i), []string{"seq", "pipe", "part9"}[i], up, get("/after", ae, 200, nil, 7, "c"), post(10, "c"))
 	}
+	// three client connections in a row through one proxy, slow origin
+	m := []string{"H1", "multi.1500.300"}
+	for c := 0; c < 3; c++ {
+		if c > 0 {
+			m = append(m, "N")
+		}
+		m = append(m, get(fmt.Sprintf("/c%d/1", c), ae, 200, nil, 10, "c").token(), post(10, "c").token(), get(fmt.Sprintf("/c%d/3", c), ae, 200, nil, 10, "k3").token())
+	}
+	cs = append(cs, hx.Case{Name: "three-connections-share-the-pool-beyond-the-timeout", In: m})
+	// HTTP/1.0 keep-alive client, chunked origin
+	h10 := get("/h10", append(H("Connection", "keep-alive"), ae...), 200, nil, 100, "k7")
+	h10.V10 = true
+	add("http10-keepalive-client-chunked-origin", "seq", h10, get("/after", ae, 200, nil, 5, "c"))
 	// connection older than the proxy timeout, every pause far below it
 	add("lifetime-exceeds-proxy-timeout", "life.1500.400",
 		get("/1", ae, 200, nil, 10, "c"), get("/2", ae, 200, nil, 10, "k3"), post(10, "c"), get("/4", ae, 204, nil, 0, "n"),
